@@ -137,9 +137,9 @@ def table_strategy(kind):
                 lambda t: {"table": [[f, v] for f, v in zip(t[0], t[1])], "f2c": None, "flows": t[0]})
         if kind == "SP":
             # priorities are per flow; flow2class only labels packets
-            return st.tuples(flows, st.lists(val, min_size=n, max_size=n), st.booleans()).map(
-                lambda t: {"table": [[f, v] for f, v in zip(t[0], t[1])],
-                           "f2c": [[f, 10 + (f % 2)] for f in t[0]] if t[2] else None, "flows": t[0]})
+            from .c13 import sp_f2c
+            return st.tuples(flows, st.lists(val, min_size=n, max_size=n), st.integers(0, 3)).map(
+                lambda t: {"table": [[f, v] for f, v in zip(t[0], t[1])], "f2c": sp_f2c(t[0], t[2]), "flows": t[0]})
         # class-keyed tables
         ident = st.tuples(flows, st.lists(val, min_size=n, max_size=n)).map(
             lambda t: {"table": [[f, v] for f, v in zip(t[0], t[1])], "f2c": None, "flows": t[0]})
